@@ -1458,3 +1458,376 @@ theorem lossyF_eq_spec (b : Bytes) (inRepl : Bool) :
 
 
 end TsVerif.C18
+
+/-! ## Docs selection -/
+namespace TsVerif.C18
+
+
+theorem suffixes_snoc {α : Type} (l : List α) (d : α) :
+    suffixes (l ++ [d]) = (suffixes l).map (· ++ [d]) ++ [[]] := by
+  induction l with
+  | nil => simp [suffixes]
+  | cons a l ih => simp [suffixes, ih]
+
+theorem chainOK_snoc (s : List Cap) (d : Cap) (row : Nat) :
+    chainOK (s ++ [d]) row = (chainOK s d.sp.row && decide (d.ep.row + 1 ≥ row)) := by
+  induction s with
+  | nil => simp [chainOK]
+  | cons a s ih =>
+    cases s with
+    | nil => simp [chainOK]
+    | cons b s =>
+      simp only [List.cons_append, chainOK] at ih ⊢
+      rw [ih]; simp [Bool.and_assoc]
+
+theorem nil_mem_suffixes {α : Type} (l : List α) : [] ∈ suffixes l := by
+  induction l with
+  | nil => simp [suffixes]
+  | cons a l ih => simp [suffixes, ih]
+
+theorem selectSpec_snoc (l : List Cap) (d : Cap) (row : Nat) :
+    selectSpec (l ++ [d]) row = if d.ep.row + 1 ≥ row then selectSpec l d.sp.row ++ [d] else [] := by
+  unfold selectSpec
+  rw [suffixes_snoc, List.find?_append, List.find?_map]
+  by_cases h : d.ep.row + 1 ≥ row
+  · simp only [h, if_true]
+    have hf : ((fun x => chainOK x row) ∘ fun x => x ++ [d]) = fun x => chainOK x d.sp.row := by
+      funext x; simp [chainOK_snoc, h]
+    rw [hf]
+    cases hfind : (suffixes l).find? (fun x => chainOK x d.sp.row) with
+    | none =>
+      have := List.find?_eq_none.mp hfind [] (nil_mem_suffixes l)
+      simp [chainOK] at this
+    | some t => simp
+  · simp only [h, if_false]
+    have hf : ((fun x => chainOK x row) ∘ fun x => x ++ [d]) = fun _ => false := by
+      funext x; simp [chainOK_snoc, h]
+    rw [hf]
+    have : (suffixes l).find? (fun _ => false) = none := List.find?_eq_none.mpr (by simp)
+    simp [this, chainOK]
+
+theorem adjacentDocs_eq (rev : List Cap) : ∀ (row : Nat) (kept : List Cap),
+    adjacentDocs rev row kept = selectSpec rev.reverse row ++ kept := by
+  induction rev with
+  | nil => intro row kept; simp [adjacentDocs, selectSpec, suffixes, chainOK]
+  | cons d rest ih =>
+    intro row kept
+    simp only [adjacentDocs, List.reverse_cons, selectSpec_snoc]
+    by_cases h : d.ep.row + 1 ≥ row
+    · simp [h, ih]
+    · simp [h]
+
+theorem selectAdjacent_eq_spec (docs : List Cap) (row : Nat) : selectAdjacent docs row = selectSpec docs row := by
+  unfold selectAdjacent
+  rw [adjacentDocs_eq]; simp
+
+
+theorem selectSpec_cons (a : Cap) (l : List Cap) (row : Nat) :
+    selectSpec (a :: l) row = if chainOK (a :: l) row then a :: l else selectSpec l row := by
+  unfold selectSpec
+  simp only [suffixes, List.find?_cons]
+  by_cases h : chainOK (a :: l) row = true <;> simp [h]
+
+theorem selectSpec_props (docs : List Cap) (row : Nat) :
+    (∃ pre, docs = pre ++ selectSpec docs row) ∧ chainOK (selectSpec docs row) row = true ∧
+    ∀ pre s, docs = pre ++ s → chainOK s row = true → s.length ≤ (selectSpec docs row).length := by
+  induction docs with
+  | nil =>
+    refine ⟨⟨[], by simp [selectSpec, suffixes, chainOK]⟩, by simp [selectSpec, suffixes, chainOK], ?_⟩
+    intro pre s h _
+    have : s = [] := by
+      have := congrArg List.length h; simp at this; exact List.eq_nil_of_length_eq_zero (by omega)
+    simp [this]
+  | cons a l ih =>
+    rw [selectSpec_cons]
+    by_cases h : chainOK (a :: l) row = true
+    · simp only [h, if_true]
+      refine ⟨⟨[], rfl⟩, trivial, ?_⟩
+      intro pre s hs _
+      have := congrArg List.length hs; simp at this ⊢; omega
+    · simp only [h, Bool.false_eq_true, if_false]
+      obtain ⟨⟨pre, hpre⟩, hc, hmax⟩ := ih
+      refine ⟨⟨a :: pre, by rw [List.cons_append, ← hpre]⟩, hc, ?_⟩
+      intro pre' s hs hcs
+      cases pre' with
+      | nil => simp at hs; rw [← hs] at hcs; exact absurd hcs h
+      | cons b p =>
+        simp only [List.cons_append, List.cons.injEq] at hs
+        exact hmax p s hs.2 hcs
+
+theorem docsOfP_eq_spec (strip : Option (Bytes → Bytes)) (src : Bytes) (adj : Option Cap) (docs : List Cap) :
+    docsOfP strip src adj docs = docsSpec strip src adj docs := by
+  unfold docsOfP docsSpec
+  cases adj with
+  | none => rfl
+  | some a =>
+    cases docs with
+    | nil => simp [selectSpec, suffixes, chainOK]
+    | cons d ds => simp [selectAdjacent_eq_spec]
+
+
+end TsVerif.C18
+
+/-! ## Residence histories -/
+namespace TsVerif.C18
+
+
+theorem projH_qInsertH (tag : Tag) (pat : Nat) (q : QueueH) :
+    projH (qInsertH tag pat q) = qInsert tag pat (projH q) := by
+  induction q with
+  | nil => simp [qInsertH, qInsert, projH]
+  | cons hd rest ih =>
+    obtain ⟨⟨t, p⟩, h⟩ := hd
+    simp only [projH, List.map_cons] at ih ⊢
+    simp only [qInsertH, qInsert]
+    split
+    · split <;> simp
+    · split
+      · simp
+      · simp [ih]
+
+theorem flushReadyH_proj : ∀ (n : Nat) (q : QueueH),
+    projH (flushReadyH n q).1 = (flushReadyP n (projH q)).1 ∧ projH (flushReadyH n q).2 = (flushReadyP n (projH q)).2 := by
+  intro n
+  induction n with
+  | zero => intro q; simp [flushReadyH, flushReadyP, projH]
+  | succ n ih =>
+    intro q
+    by_cases hr : ready (projH q) = true
+    · cases q with
+      | nil => simp [flushReadyH, flushReadyP, projH]
+      | cons hd rest =>
+        obtain ⟨⟨t, p⟩, h⟩ := hd
+        have := ih rest
+        simp only [projH, List.map_cons] at hr this ⊢
+        simp only [flushReadyH, flushReadyP, projH, List.map_cons, hr, if_true]
+        split <;> simp [this.1, this.2]
+    · have hr' : ¬ ready (List.map Prod.fst q) = true := by simpa [projH] using hr
+      simp [flushReadyH, flushReadyP, hr', projH]
+
+theorem drainH_proj (skip : Bool) : ∀ (n : Nat) (q : QueueH), projH (drainH skip n q) = drainP skip n (projH q) := by
+  intro n
+  induction n with
+  | zero => intro q; simp [drainH, drainP, projH]
+  | succ n ih =>
+    intro q
+    cases q with
+    | nil => simp [drainH, drainP, projH]
+    | cons hd rest =>
+      obtain ⟨⟨t, p⟩, h⟩ := hd
+      have := ih rest
+      simp only [projH, List.map_cons] at this ⊢
+      simp only [drainH, drainP, projH, List.map_cons]
+      split
+      · split <;> simp [this]
+      · split <;> simp [this]
+
+theorem runH_proj (v : Variant) (cfg : Cfg) (src : Bytes) : ∀ (ms : List Mat) (st : St) (qh : QueueH),
+    st.queue = projH qh → projH (runH v cfg src ms st qh) = runP v cfg src ms st := by
+  intro ms
+  induction ms with
+  | nil =>
+    intro st qh hq
+    simp only [runH, runP, drainH_proj, hq]
+    simp [projH]
+  | cons m ms ih =>
+    intro st qh hq
+    have hlen : qh.length = st.queue.length := by rw [hq]; simp [projH]
+    have hf := flushReadyH_proj qh.length qh
+    simp only [runH, runP]
+    rw [hq] at *
+    simp only [projH, List.length_map] at hf ⊢
+    generalize flushReadyH qh.length qh = fr at hf
+    obtain ⟨outH, qh'⟩ := fr
+    generalize hfp : flushReadyP qh.length (List.map Prod.fst qh) = fp at hf
+    obtain ⟨outP, q'⟩ := fp
+    simp only at hf ⊢
+    rw [List.map_append, hf.1]
+    congr 1
+    have h2 : List.map Prod.fst qh' = q' := hf.2
+    rw [h2]
+    apply ih
+    rw [processMatch_queue']
+    cases inserted v cfg src m { st with queue := q' } with
+    | none => simp [projH, h2]
+    | some a => simp only; rw [projH_qInsertH]; simp [projH, h2]
+
+
+/-- The entry is one of the arrivals merged into it, all of them have its name range, and its pattern
+index is minimal among them. -/
+def HistOK (x : (Tag × Nat) × List (Tag × Nat)) : Prop :=
+  x.1 ∈ x.2 ∧ ∀ a ∈ x.2, key a.1 = key x.1.1 ∧ x.1.2 ≤ a.2
+
+theorem qInsertH_hist (tag : Tag) (pat : Nat) (q : QueueH) (h : ∀ x ∈ q, HistOK x) :
+    ∀ x ∈ qInsertH tag pat q, HistOK x := by
+  induction q with
+  | nil =>
+    intro x hx
+    simp [qInsertH] at hx; subst hx
+    exact ⟨by simp, by intro a ha; simp at ha; subst ha; exact ⟨rfl, Nat.le_refl _⟩⟩
+  | cons hd rest ih =>
+    obtain ⟨⟨t, p⟩, hs⟩ := hd
+    have hhd := h ((t, p), hs) List.mem_cons_self
+    have hrest : ∀ x ∈ rest, HistOK x := fun x hx => h x (List.mem_cons_of_mem _ hx)
+    intro x hx
+    simp only [qInsertH] at hx
+    split at hx
+    · rename_i heq
+      have heq' : key t = key tag := by simpa using heq
+      rcases List.mem_cons.mp hx with rfl | hx
+      · obtain ⟨h1, h2⟩ := hhd
+        simp only at h1 h2
+        by_cases hgt : p > pat
+        · simp only [hgt, if_true]
+          refine ⟨by simp, ?_⟩
+          intro a ha
+          rcases List.mem_append.mp ha with ha | ha
+          · have := h2 a ha; exact ⟨by rw [this.1, heq'], by simp; omega⟩
+          · simp at ha; subst ha; exact ⟨rfl, Nat.le_refl _⟩
+        · simp only [hgt, if_false]
+          refine ⟨List.mem_append_left _ h1, ?_⟩
+          intro a ha
+          rcases List.mem_append.mp ha with ha | ha
+          · exact h2 a ha
+          · simp at ha; subst ha; exact ⟨heq'.symm, by simp; omega⟩
+      · exact hrest x hx
+    · split at hx
+      · rcases List.mem_cons.mp hx with rfl | hx
+        · exact ⟨by simp, by intro a ha; simp at ha; subst ha; exact ⟨rfl, Nat.le_refl _⟩⟩
+        · exact h x hx
+      · rcases List.mem_cons.mp hx with rfl | hx
+        · exact hhd
+        · exact ih hrest x hx
+
+theorem flushReadyH_mem : ∀ (n : Nat) (q : QueueH),
+    (∀ x ∈ (flushReadyH n q).1, x ∈ q) ∧ (∀ x ∈ (flushReadyH n q).2, x ∈ q) := by
+  intro n
+  induction n with
+  | zero => intro q; simp [flushReadyH]
+  | succ n ih =>
+    intro q
+    by_cases hr : ready (projH q) = true
+    · cases q with
+      | nil => simp [flushReadyH]
+      | cons hd rest =>
+        obtain ⟨⟨t, p⟩, h⟩ := hd
+        have := ih rest
+        simp only [flushReadyH, hr, if_true]
+        constructor
+        · intro x hx
+          split at hx
+          · exact List.mem_cons_of_mem _ (this.1 x hx)
+          · rcases List.mem_cons.mp hx with rfl | hx
+            · exact List.mem_cons_self
+            · exact List.mem_cons_of_mem _ (this.1 x hx)
+        · intro x hx; exact List.mem_cons_of_mem _ (this.2 x hx)
+    · simp [flushReadyH, hr]
+
+theorem drainH_mem (skip : Bool) : ∀ (n : Nat) (q : QueueH), ∀ x ∈ drainH skip n q, x ∈ q := by
+  intro n
+  induction n with
+  | zero => intro q x hx; simp [drainH] at hx
+  | succ n ih =>
+    intro q x hx
+    cases q with
+    | nil => simp [drainH] at hx
+    | cons hd rest =>
+      obtain ⟨⟨t, p⟩, h⟩ := hd
+      simp only [drainH] at hx
+      split at hx
+      · split at hx
+        · exact List.mem_cons_of_mem _ (ih rest x hx)
+        · rcases List.mem_cons.mp hx with rfl | hx
+          · exact List.mem_cons_self
+          · exact List.mem_cons_of_mem _ (ih rest x hx)
+      · split at hx
+        · exact List.mem_cons_of_mem _ (ih rest x hx)
+        · rcases List.mem_cons.mp hx with rfl | hx
+          · exact List.mem_cons_self
+          · exact List.mem_cons_of_mem _ (ih rest x hx)
+
+theorem runH_hist (v : Variant) (cfg : Cfg) (src : Bytes) : ∀ (ms : List Mat) (st : St) (qh : QueueH),
+    (∀ x ∈ qh, HistOK x) → ∀ x ∈ runH v cfg src ms st qh, HistOK x := by
+  intro ms
+  induction ms with
+  | nil => intro st qh h x hx; exact h x (drainH_mem _ _ _ x hx)
+  | cons m ms ih =>
+    intro st qh h x hx
+    simp only [runH] at hx
+    have hm := flushReadyH_mem qh.length qh
+    generalize flushReadyH qh.length qh = fr at hm hx
+    obtain ⟨out, qh'⟩ := fr
+    simp only at hm hx
+    rcases List.mem_append.mp hx with hx | hx
+    · exact h x (hm.1 x hx)
+    · refine ih _ _ ?_ x hx
+      have hq' : ∀ y ∈ qh', HistOK y := fun y hy => h y (hm.2 y hy)
+      cases inserted v cfg src m { st with queue := projH qh' } with
+      | none => exact hq'
+      | some a => exact qInsertH_hist _ _ _ hq'
+
+
+theorem qInsertH_src (tag : Tag) (pat : Nat) (q : QueueH) :
+    ∀ x ∈ qInsertH tag pat q, ∀ a ∈ x.2, a = (tag, pat) ∨ ∃ y ∈ q, a ∈ y.2 := by
+  induction q with
+  | nil => intro x hx a ha; simp [qInsertH] at hx; subst hx; simp at ha; exact Or.inl ha
+  | cons hd rest ih =>
+    obtain ⟨⟨t, p⟩, hs⟩ := hd
+    intro x hx a ha
+    simp only [qInsertH] at hx
+    split at hx
+    · rcases List.mem_cons.mp hx with rfl | hx
+      · rcases List.mem_append.mp ha with ha | ha
+        · exact Or.inr ⟨_, List.mem_cons_self, ha⟩
+        · simp at ha; exact Or.inl ha
+      · exact Or.inr ⟨x, List.mem_cons_of_mem _ hx, ha⟩
+    · split at hx
+      · rcases List.mem_cons.mp hx with rfl | hx
+        · simp at ha; exact Or.inl ha
+        · exact Or.inr ⟨x, hx, ha⟩
+      · rcases List.mem_cons.mp hx with rfl | hx
+        · exact Or.inr ⟨_, List.mem_cons_self, ha⟩
+        · rcases ih x hx a ha with h | ⟨y, hy, hay⟩
+          · exact Or.inl h
+          · exact Or.inr ⟨y, List.mem_cons_of_mem _ hy, hay⟩
+
+theorem runH_src (v : Variant) (cfg : Cfg) (src : Bytes) : ∀ (ms : List Mat) (st : St) (qh : QueueH),
+    st.queue = projH qh →
+    ∀ x ∈ runH v cfg src ms st qh, ∀ a ∈ x.2, (∃ y ∈ qh, a ∈ y.2) ∨ a ∈ arrivals v cfg src ms st := by
+  intro ms
+  induction ms with
+  | nil => intro st qh _ x hx a ha; exact Or.inl ⟨x, drainH_mem _ _ _ x hx, ha⟩
+  | cons m ms ih =>
+    intro st qh hq x hx a ha
+    simp only [runH] at hx
+    simp only [arrivals]
+    have hm := flushReadyH_mem qh.length qh
+    have hp := (flushReadyH_proj qh.length qh).2
+    have hlen : st.queue.length = qh.length := by rw [hq]; simp [projH]
+    rw [hlen, hq]
+    generalize flushReadyH qh.length qh = fr at hm hx hp
+    obtain ⟨out, qh'⟩ := fr
+    simp only at hm hx hp
+    rw [← hp]
+    rcases List.mem_append.mp hx with hx | hx
+    · exact Or.inl ⟨x, hm.1 x hx, ha⟩
+    · have hsync : (processMatch v cfg src m { st with queue := projH qh' }).queue =
+          projH (match inserted v cfg src m { st with queue := projH qh' } with
+            | some a => qInsertH a.1 a.2 qh'
+            | none => qh') := by
+        rw [processMatch_queue']
+        cases inserted v cfg src m { st with queue := projH qh' } with
+        | none => rfl
+        | some b => simp only; rw [projH_qInsertH]
+      rcases ih _ _ hsync x hx a ha with ⟨y, hy, hay⟩ | harr
+      · cases hi : inserted v cfg src m { st with queue := projH qh' } with
+        | none => rw [hi] at hy; exact Or.inl ⟨y, hm.2 y hy, hay⟩
+        | some b =>
+          rw [hi] at hy
+          rcases qInsertH_src _ _ _ y hy a hay with h | ⟨z, hz, haz⟩
+          · right; apply List.mem_append_left; simp [h]
+          · exact Or.inl ⟨z, hm.2 z hz, haz⟩
+      · exact Or.inr (List.mem_append_right _ harr)
+
+
+end TsVerif.C18
